@@ -13,16 +13,17 @@ import (
 // Shared driver for the properties that are monitors over every reconcile of a random history.
 
 type worldOpts struct {
-	maxR         int
-	maxOps       int
-	weights      opWeights
-	faults       bool
-	interference bool
-	constructed  int // chance out of 10 that the initial pod population is constructed
-	orphans      bool
-	forceOrdered bool
+	maxR          int
+	maxOps        int
+	weights       opWeights
+	faults        bool
+	interference  bool
+	constructed   int // chance out of 10 that the initial pod population is constructed
+	orphans       bool
+	forceOrdered  bool
 	forceParallel bool
-	forceRolling bool
+	forceRolling  bool
+	orphanRevs    bool
 }
 
 func (w World) Summary() interface{} { return summarizeWorld(w) }
@@ -43,6 +44,12 @@ func genWorld(rt *rapid.T, o worldOpts) World {
 		w.Pods = genPods(rt, len(w.Hist), o.orphans)
 		if len(w.Hist) > 1 && rapid.Bool().Draw(rt, "repointCurrent") {
 			w.CurRev = rapid.IntRange(0, len(w.Hist)-1).Draw(rt, "curRev")
+		}
+	}
+	if o.orphanRevs && rapid.IntRange(0, 3).Draw(rt, "hasOrphanRevs") == 0 {
+		n := rapid.IntRange(1, 2).Draw(rt, "nOrphanRevs")
+		for i := 0; i < n; i++ {
+			w.OrphanRevs = append(w.OrphanRevs, ORev{Marker: rapid.Bool().Draw(rt, "orMarker"), Equal: rapid.Bool().Draw(rt, "orEqual"), Rev: int64(rapid.IntRange(0, 6).Draw(rt, "orRev"))})
 		}
 	}
 	w.Ops = genOps(rt, o.maxOps, o.weights, o.faults, o.interference)
